@@ -4,6 +4,7 @@
 //!
 //!   avs gen-fixtures <dir> <n> <seed> [max est nodes]   native: generate n dispatch fixtures (compact, bincode)
 //!   avs dispatch <dir> [max]              run run_dispatch on every fixture in <dir>
+//!   avs regress <dir>                     run every fixture of the regression corpus, list the ones that fail
 //!   avs batch <seed> <elements> <steps>   LocomotiveSimulationVec: parallel walk vs serial walks
 use altrios_core::consist::locomotive::loco_sim::LocomotiveSimulationVec;
 use altrios_core::meet_pass::dispatch::run_dispatch;
@@ -15,15 +16,7 @@ use altrios_verif::gen::dispatch as gd;
 use altrios_verif::rng::Rng;
 use serde::{Deserialize, Serialize};
 
-#[derive(Serialize, Deserialize)]
-struct Fixture {
-    /// per link: flip, next, next_alt, prev, prev_alt, lockouts, length
-    links: Vec<(u32, u32, u32, u32, u32, Vec<u32>, f64)>,
-    departs: Vec<f64>,
-    origs: Vec<Vec<u32>>,
-    dests: Vec<Vec<u32>>,
-    nets: Vec<EstTimeNet>,
-}
+use altrios_verif::gen::fixture::Fixture;
 
 fn gen_fixtures(dir: &str, n: usize, seed: u64, max_nodes: usize) {
     std::fs::create_dir_all(dir).unwrap();
@@ -53,8 +46,7 @@ fn gen_fixtures(dir: &str, n: usize, seed: u64, max_nodes: usize) {
         if nets.len() < 2 || nets.iter().map(|n| n.val.len()).sum::<usize>() > max_nodes {
             continue;
         }
-        let links = inst.links.iter().map(|l| (l.idx_flip.idx() as u32, l.idx_next.idx() as u32, l.idx_next_alt.idx() as u32, l.idx_prev.idx() as u32, l.idx_prev_alt.idx() as u32, l.link_idxs_lockout.iter().map(|x| x.idx() as u32).collect(), l.length.value)).collect();
-        let f = Fixture { links, departs, origs, dests, nets };
+        let f = Fixture::new(&inst.links, departs, origs, dests, nets);
         std::fs::write(format!("{dir}/fixture_{made:03}.bin"), bincode::serialize(&f).unwrap()).unwrap();
         made += 1;
     }
@@ -62,29 +54,6 @@ fn gen_fixtures(dir: &str, n: usize, seed: u64, max_nodes: usize) {
     if made == 0 {
         std::process::exit(3);
     }
-}
-
-fn fixture_links(fx: &Fixture) -> Vec<Link> {
-    fx.links
-        .iter()
-        .enumerate()
-        .map(|(i, l)| Link { idx_curr: LinkIdx::new(i as u32), idx_flip: LinkIdx::new(l.0), idx_next: LinkIdx::new(l.1), idx_next_alt: LinkIdx::new(l.2), idx_prev: LinkIdx::new(l.3), idx_prev_alt: LinkIdx::new(l.4),
-            link_idxs_lockout: l.5.iter().map(|x| LinkIdx::new(*x)).collect(), length: uc::M * l.6, ..Default::default() })
-        .collect()
-}
-
-/// run_dispatch reads only train_id and the departure time of the simulations
-fn fixture_sims(fx: &Fixture) -> Vec<SpeedLimitTrainSim> {
-    fx.departs
-        .iter()
-        .enumerate()
-        .map(|(k, d)| {
-            let mut s = SpeedLimitTrainSim::default();
-            s.train_id = format!("t{k}");
-            s.state.time = uc::S * *d;
-            s
-        })
-        .collect()
 }
 
 fn dispatch(dir: &str, max: usize) {
@@ -95,8 +64,8 @@ fn dispatch(dir: &str, max: usize) {
     altrios_verif::panics::install_printing_hook();
     for f in files.iter().take(max) {
         let fx: Fixture = bincode::deserialize(&std::fs::read(f).unwrap()).unwrap();
-        let links = fixture_links(&fx);
-        let sims = fixture_sims(&fx);
+        let links = fx.links();
+        let sims = fx.sims();
         nodes += fx.nets.iter().map(|n| n.val.len()).sum::<usize>();
         // the crate's own debug_assert!s are active in unoptimised builds (Miri); one of them compares two float
         // sums exactly and trips on sub-micrometre rounding on correct plans: recorded, not judged (DESIGN 8.1)
@@ -137,6 +106,98 @@ fn dispatch(dir: &str, max: usize) {
     }
 }
 
+/// Regression corpus: every fixture is an instance that once exposed a dispatch defect (on a tree without the
+/// repair). All are run; a panic, a non-terminating run (observer bound) or an invalid plan fails the fixture.
+fn regress(dir: &str) {
+    use altrios_core::verif_hooks::{set_dispatch_observer, DispatchPhase};
+    let mut files: Vec<_> = std::fs::read_dir(dir).map(|d| d.filter_map(|e| e.ok()).map(|e| e.path()).filter(|p| p.extension().map(|x| x == "bin").unwrap_or(false)).collect()).unwrap_or_default();
+    files.sort();
+    altrios_verif::panics::install_hook();
+    let (mut passed, mut dbg_trips) = (0usize, 0usize);
+    let mut failed: Vec<String> = vec![];
+    for f in &files {
+        let name = f.file_name().map(|x| x.to_string_lossy().to_string()).unwrap_or_default();
+        let fx = match Fixture::load(f) {
+            Some(fx) => fx,
+            None => {
+                failed.push(format!("{name}: unreadable fixture"));
+                continue;
+            }
+        };
+        let links = fx.links();
+        let sims = fx.sims();
+        // logical progress bound, as in the C05 monitor
+        let attempts = std::rc::Rc::new(std::cell::Cell::new((0usize, 0usize)));
+        let a2 = attempts.clone();
+        set_dispatch_observer(Some(Box::new(move |s| {
+            if s.phase == DispatchPhase::AdvanceAttempt {
+                let (it, n) = a2.get();
+                let n = if it == s.iteration { n + 1 } else { 1 };
+                a2.set((s.iteration, n));
+                if n > 20_000 {
+                    panic!("VERIF-BOUND inner loop makes no progress");
+                }
+            }
+        })));
+        let outcome = altrios_verif::panics::guard(std::panic::AssertUnwindSafe(|| run_dispatch(&links, &sims, fx.nets.clone(), false, false)));
+        set_dispatch_observer(None);
+        let verdict: Result<(), String> = match outcome {
+            Err(p) if altrios_verif::panics::is_debug_assert_site(&p) => {
+                dbg_trips += 1;
+                Ok(())
+            }
+            Err(p) => Err(format!("panic: {} at {}", p.message.chars().take(160).collect::<String>(), p.location)),
+            Ok(Err(e)) => {
+                if format!("{e:#}").trim().is_empty() {
+                    Err("empty error".into())
+                } else {
+                    Ok(())
+                }
+            }
+            Ok(Ok(plan)) => (|| {
+                if plan.len() != sims.len() {
+                    return Err("a train was dropped".to_string());
+                }
+                for (k, route) in plan.iter().enumerate() {
+                    if route.is_empty() {
+                        return Err(format!("train {}: empty route", k + 1));
+                    }
+                    if !fx.origs[k].contains(&(route[0].link_idx.idx() as u32)) {
+                        return Err(format!("train {}: route does not start on an origin", k + 1));
+                    }
+                    if route[0].time.value < fx.departs[k] - 1e-6 {
+                        return Err(format!("train {}: starts before its departure", k + 1));
+                    }
+                    if route.iter().any(|x| !x.time.value.is_finite()) {
+                        return Err(format!("train {}: non-finite arrival time", k + 1));
+                    }
+                    for w in route.windows(2) {
+                        let l = &links[w[0].link_idx.idx()];
+                        if l.idx_next != w[1].link_idx && l.idx_next_alt != w[1].link_idx {
+                            return Err(format!("train {}: route not contiguous", k + 1));
+                        }
+                        if w[1].time.value < w[0].time.value - 1e-6 {
+                            return Err(format!("train {}: arrival times decrease", k + 1));
+                        }
+                    }
+                }
+                Ok(())
+            })(),
+        };
+        match verdict {
+            Ok(()) => passed += 1,
+            Err(e) => failed.push(format!("{name}: {e}")),
+        }
+    }
+    println!("REGRESS-WORKLOAD fixtures={} passed={passed} crate_debug_assert_trips={dbg_trips} failed={}", files.len(), failed.len());
+    for f in &failed {
+        println!("REGRESS-FAILED {f}");
+    }
+    if !failed.is_empty() {
+        std::process::exit(1);
+    }
+}
+
 /// bit-level trace of one dispatch run (used to compare an interpreter run against a native one)
 fn dispatch_trace(file: &str) {
     use altrios_core::verif_hooks::{set_dispatch_observer, DispatchPhase};
@@ -150,8 +211,8 @@ fn dispatch_trace(file: &str) {
         }
     }
     println!("input-hash {h:016x}");
-    let links = fixture_links(&fx);
-    let sims = fixture_sims(&fx);
+    let links = fx.links();
+    let sims = fx.sims();
     set_dispatch_observer(Some(Box::new(|s| {
         if s.phase == DispatchPhase::EndOfIteration || s.phase == DispatchPhase::AfterAdvance || s.phase == DispatchPhase::AfterRewind {
             let mut ha: u64 = 0;
@@ -211,6 +272,7 @@ fn main() {
         Some("gen-fixtures") => gen_fixtures(&a[2], a[3].parse().unwrap(), a.get(4).and_then(|s| s.parse().ok()).unwrap_or(1), a.get(5).and_then(|s| s.parse().ok()).unwrap_or(usize::MAX)),
         Some("noop") => println!("avs built"),
         Some("dispatch") => dispatch(&a[2], a.get(3).and_then(|s| s.parse().ok()).unwrap_or(usize::MAX)),
+        Some("regress") => regress(&a[2]),
         Some("dispatch-trace") => dispatch_trace(&a[2]),
         Some("batch") => batch(a[2].parse().unwrap(), a[3].parse().unwrap(), a[4].parse().unwrap()),
         _ => {
